@@ -154,6 +154,11 @@ func (s *scope) isRedeclared(n *node) bool {
 }
 
 func (s *scope) rangeChanType(n *node) *itype {
+	if len(n.child) == 4 {
+		// A range clause with both a key and a value is never a range over a channel,
+		// even if the value variable is itself of channel type.
+		return nil
+	}
 	if sym, _, found := s.lookup(n.child[1].ident); found {
 		if t := sym.typ; len(n.child) == 3 && t != nil && (t.cat == chanT || t.cat == chanRecvT) {
 			return t
